@@ -94,6 +94,16 @@ func VerifInvert(m [][]byte) ([][]byte, error) {
 	return [][]byte(res), err
 }
 
+// VerifSubMatrix takes the window [rmin,rmax) x [cmin,cmax) of a matrix with the package's SubMatrix.
+func VerifSubMatrix(m [][]byte, rmin, cmin, rmax, cmax int) ([][]byte, error) {
+	mm, err := newMatrixData(m)
+	if err != nil {
+		return nil, err
+	}
+	res, err := mm.SubMatrix(rmin, cmin, rmax, cmax)
+	return [][]byte(res), err
+}
+
 // Matrix builders.
 func VerifBuildMatrix(kind string, d, total int) ([][]byte, error) {
 	var m matrix
